@@ -12,6 +12,7 @@ import IgVerif.Model.Names
 import IgVerif.Model.CType
 import IgVerif.Model.Scope
 import IgVerif.Model.Traits
+import IgVerif.Model.Scan
 /-! `igdriver <model>`: reads one op per line on stdin, prints one answer per line.
 Byte strings are hex ("-" = empty). -/
 open IgVerif
@@ -607,6 +608,33 @@ def traitsStep (_ : Unit) (toks : List String) : IO (Unit × String) := do
     | _ => return ((), "bad-op")
   | _ => return ((), "bad-op")
 
+/-! ### scan -/
+def parseTok (s : String) : Scan.Tok :=
+  if s.startsWith "i:" then .ident (s.drop 2).toString else .other (s.drop 2).toString
+
+def parseTable : Nat → List String → Option (Scan.Table × List String)
+  | 0, toks => some ([], toks)
+  | k+1, name :: n :: rest =>
+    let nb := n.toNat?.getD 0
+    (parseTable k (rest.drop nb)).map fun p => ((name, (rest.take nb).map parseTok) :: p.1, p.2)
+  | _, _ => none
+
+def tokOut : Scan.Tok → String
+  | .ident s => s
+  | .other s => s
+
+def scanStep (_ : Unit) (toks : List String) : IO (Unit × String) := do
+  match toks with
+  | ["raw", h] =>
+    match Scan.scanRaw (unhex h) with
+    | .throws => return ((), "throws")
+    | .ok (body, closed) => return ((), s!"ok closed={b01 closed} {hex body}")
+  | "expand" :: k :: rest =>
+    match parseTable (k.toNat?.getD 0) rest with
+    | some (table, _n :: ts) => return ((), " ".intercalate ((Scan.expandObj table [] (ts.map parseTok)).map tokOut))
+    | _ => return ((), "bad-op")
+  | _ => return ((), "bad-op")
+
 def main (args : List String) : IO UInt32 := do
   let stdin ← IO.getStdin
   match args with
@@ -621,4 +649,5 @@ def main (args : List String) : IO UInt32 := do
   | ["ctype"] => loop stdin ctypeStep (); return 0
   | ["scope"] => loop stdin scopeStep (); return 0
   | ["traits"] => loop stdin traitsStep (); return 0
+  | ["scan"] => loop stdin scanStep (); return 0
   | _ => IO.eprintln "usage: igdriver <model>"; return 2
